@@ -162,7 +162,7 @@ impl Prop for C19 {
          one distinguishing selector per texel position, every alpha nibble at every position, and fully transparent / fully opaque alpha planes over arbitrary colour words. Oracle: per-pixel reference decoders written from the format definitions: pixel (x, y) comes from its Z-order position in its 8x8 tile (4x4 ETC block, 2x2 blocks per tile); ETC1 colours exactly per the Khronos rules for blocks whose differential sums stay in 0..=31 \
          (others: no colour oracle, but no panic and identical output in both builds); every other channel within one quantisation step of the linear expansion of its source bits; alpha 255 where the format has none; A8 colour merely constant; output length 4*w*h, dimensions echoed. \
          GameCube: ColorFormat::RGB5A3.decode over all 65536 values; Tpl::extract_textures on single-image CI8 TPLs with RGB5A3 palettes for sizes 1..=64 x 1..=64 (every width x a few heights and vice versa in the enumerated tier), 8x4 blocks, cropped to the stated size. Both builds, per-case output digests compared between them. \
-         Non-trivial: the payload is not constant. Distinct = distinct case value."
+         TPL palettes: 1..=256 entries, 1 in 13 with 257..=1 024 (only the first 256 are reachable by an 8-bit index). Non-trivial: the payload is not constant. Distinct = distinct case value."
             .into()
     }
     fn assumptions() -> Vec<String> {
